@@ -27,6 +27,8 @@ use crate::server::Server;
 struct Gate {
     gating: bool,
     released: HashSet<i32>,
+    /// versions whose analyses are to finish before the server publishes the synchronous result
+    early: HashSet<i32>,
     spawned: usize,
     finished: usize,
     spawned_by_version: std::collections::HashMap<i32, usize>,
@@ -85,6 +87,32 @@ impl<T> Drop for Gated<T> {
             *g.finished_by_version.entry(version).or_default() += 1;
         });
         GATE_CV.notify_all();
+    }
+}
+
+/// Called at the top of `Server::notify_analysis_ok`. For a version the harness has marked as
+/// "early" the analyses of that version are released here and waited for, so that the schedule in
+/// which a background analysis finishes before the synchronous all-clear is published can be
+/// produced on demand. Does nothing otherwise.
+pub(crate) fn before_sync_publish(version: i32) {
+    let mut g = GATE.lock().unwrap_or_else(|e| e.into_inner());
+    if !g.get_or_insert_with(Gate::default).early.contains(&version) {
+        return;
+    }
+    g.get_or_insert_with(Gate::default).released.insert(version);
+    GATE_CV.notify_all();
+    let deadline = std::time::Instant::now() + std::time::Duration::from_secs(60);
+    loop {
+        let gate = g.get_or_insert_with(Gate::default);
+        let spawned = gate.spawned_by_version.get(&version).copied().unwrap_or(0);
+        let finished = gate.finished_by_version.get(&version).copied().unwrap_or(0);
+        if finished >= spawned || std::time::Instant::now() > deadline {
+            return;
+        }
+        let (ng, _) = GATE_CV
+            .wait_timeout(g, std::time::Duration::from_millis(50))
+            .unwrap_or_else(|e| e.into_inner());
+        g = ng;
     }
 }
 
@@ -219,6 +247,15 @@ pub(crate) fn run() -> Result<(), Box<dyn std::error::Error>> {
                 let on = cmd["on"].as_bool().unwrap_or(true);
                 with_gate(|g| g.gating = on);
                 GATE_CV.notify_all();
+                json!({"ok": true})
+            }
+            "early" => {
+                // analyses of these versions finish before the synchronous result is published
+                let versions: Vec<i32> = cmd["versions"]
+                    .as_array()
+                    .map(|a| a.iter().filter_map(|v| v.as_i64()).map(|v| v as i32).collect())
+                    .unwrap_or_default();
+                with_gate(|g| g.early = versions.into_iter().collect());
                 json!({"ok": true})
             }
             "release" => {
